@@ -509,8 +509,11 @@ def stream_sdk(ctx: lib.Ctx) -> None:
 
 
 def streams(ctx: lib.Ctx) -> None:
-    stream_frontend(ctx)
-    stream_sdk(ctx)
+    try:
+        stream_frontend(ctx)
+        stream_sdk(ctx)
+    finally:
+        sdkrun.cleanup(ctx.work)
     # one finding per key is enough
     seen, kept = set(), []
     for f in ctx.impl_failures:
